@@ -16,7 +16,7 @@ pub const NUMBERS: &[&str] = &["2", "10", "9.5", "-3", "0", "7", "100", "3.25", 
 pub const DIRS: &[&str] = &["a", "b", "src", "docs", "my dir", "v1.2", "lib", "pkg", "v1..v2"];
 pub const STEMS: &[&str] = &[
     "main", "util", "x", "mod", "data", "conf", "app", "b", "my file", "v2.conf", "a", "[id]", "{slug}", "odd\\name",
-    "notes..old",
+    "notes..old", "x,y",
 ];
 /// Languages whose generated content needs no wrapper (any line is acceptable between comments).
 pub const HASH_EXTS: &[&str] = &["py", "rb", "sh", "py", "rb", "sh", "py", "md", "markdown", "html"];
@@ -326,6 +326,10 @@ impl<'a> Gen<'a> {
                 b.children.push(c);
             }
             b.tail = self.gen_lines(style, 2, path, clean);
+        }
+        // an empty block may sit in a single comment
+        if b.lines.is_empty() && !with_children && self.rng.chance(1, 3) {
+            b.one_comment = true;
         }
         let line_rules_ok = !with_children && style != Style::Rich;
         if line_rules_ok && self.rng.chance(cfg.p_sorted, 100) {
@@ -716,8 +720,11 @@ impl<'a> Gen<'a> {
         let mut named: Vec<(String, String)> = Vec::new();
         for f in &self.world.files {
             for_each_block(&f.blocks, &mut |b| {
+                // (a reference list is comma-separated: a file with a comma in its name cannot be named)
                 if let Some(n) = b.attr("name") {
-                    named.push((f.path.clone(), n.to_string()));
+                    if !f.path.contains(',') {
+                        named.push((f.path.clone(), n.to_string()));
+                    }
                 }
             });
         }
